@@ -751,8 +751,38 @@ func (f *frame) externalCall(x ssa.CallInstruction, callee *ssa.Function, st Sta
 					}
 				}
 			case *types.Interface:
-				// an interface argument may carry a pointer the callee writes through: unknown target
-				if !isErrorType(ptypes[i]) {
+				// an interface argument may carry a pointer the callee writes through (proto.Unmarshal,
+				// json.Unmarshal, rlp.Decode, ...): when the call site shows the dynamic type, the pointee
+				// is havocked like a pointer argument; otherwise the target is unknown (noted)
+				if isErrorType(ptypes[i]) {
+					break
+				}
+				done := false
+				if site := x; site != nil {
+					cargs := site.Common().Args
+					off := 0
+					if site.Common().IsInvoke() {
+						off = -1
+					}
+					if j := i + off; j >= 0 && j < len(cargs) {
+						if mi, ok := cargs[j].(*ssa.MakeInterface); ok {
+							if pt, ok := mi.X.Type().Underlying().(*types.Pointer); ok {
+								ref := f.get(mi.X)[0]
+								l := locOfRef(ref, pt.Elem())
+								fv := make(Val, len(l.accs))
+								for k, acc := range l.accs {
+									fv[k] = c.fresh("ext_"+sanitize(name), acc.leaf.Sort)
+								}
+								c.assumeRanges(fv, pt.Elem(), reach, "")
+								st.heap = c.store(st.heap, l, fv)
+								done = true
+							} else {
+								done = true // a non-pointer value in the interface cannot be written through (shallow)
+							}
+						}
+					}
+				}
+				if !done {
 					c.note("external-call-with-interface-arg:" + name)
 				}
 			}
